@@ -158,7 +158,11 @@ impl Ck {
                     self.uses(&used, local, &here);
                 }
                 Transform::Append(r) => {
-                    self.table_ref(r, declared, &here, local);
+                    // the appended relation's instance columns are defined here, but they are not columns of
+                    // this pipeline: after an append the pipeline still has the top relation's columns (the
+                    // bottom is matched by position), so later transforms cannot refer to them
+                    let mut not_visible = HashSet::new();
+                    self.table_ref(r, declared, &here, &mut not_visible);
                 }
                 Transform::Loop(body) => {
                     let p = format!("{here}.loop");
